@@ -472,8 +472,8 @@ func runAcctEngine(r *lib.Run, which string) {
 		"sequential (monitor after every step) then 2-8 concurrent clients with hook-injected delays (sampler + quiescence). " +
 		"distinct = (storage mode, #entries, accounted size, reserved) states observed at monitor points")
 	r.Assume("snapshot hook disk.VerifSnapshot copies the index under the cache's own mutex")
-	nSeq := r.N(120, 2500)
-	nConc := r.N(30, 600)
+	nSeq := r.N(250, 3000)
+	nConc := r.N(60, 800)
 	maxOps := r.N(40, 120)
 	rng := r.Rng("acct")
 
